@@ -37,3 +37,10 @@ package state
 //@   props C01 C11
 //@   requires [opts-nonnil] forall i int :: 0 <= i && i < len(opts) ==> opts[i] != nil
 //@   ensures [nonnil] result ==> err != nil
+
+//@ func WrapCore
+//@   props C11
+//@   ensures [nonnil] result != nil
+
+// Functional option constructors (WithX / WatchWithX) consist of a single closure literal: inlined.
+//@ inline_matching ^pkg/state\.(With|WatchWith)\w+$
